@@ -3,7 +3,6 @@ package main
 import (
 	"fmt"
 	"go/token"
-	"go/types"
 	"os"
 	"strings"
 
@@ -23,7 +22,7 @@ var sizeAllowed = map[string]string{
 // path; behaviour that is selected by a test `len(x) <op> k` with k >= 2 lies (partly) beyond that
 // bound, so such a test is reported as undecided unless it is one of the enumerated shape tests.
 func ruleSizeThresholds(c *Ctx) {
-	c.Doc("size.threshold", "coverage obligation of the path rules: in every function the rules of this property analysed, no branch compares len(...)/cap(...) of a collection with a constant >= 2 other than the enumerated shape tests (two-part splits, arity guards); a size-dependent fast path or special case beyond the unrolling bound is not covered by the path rules and is reported as undecided")
+	c.Doc("size.threshold", "coverage obligation of the path rules: in every function the rules of this property analysed, no branch compares len(...)/cap(...) of a slice, map or string with a constant >= 2 other than the enumerated shape tests (two-part splits, arity guards); a size-dependent fast path or special case beyond the unrolling bound is not covered by the path rules and is reported as undecided")
 	seen := map[string]bool{}
 	for _, f := range c.P.ModFuncs {
 		if len(f.TypeArgs()) > 0 {
@@ -61,9 +60,6 @@ func ruleSizeThresholds(c *Ctx) {
 			}
 			if bi, isB := call.Call.Value.(*ssa.Builtin); !isB || (bi.Name() != "len" && bi.Name() != "cap") {
 				return
-			}
-			if _, isStr := call.Call.Args[0].Type().Underlying().(*types.Basic); isStr {
-				return // string lengths: lexer look-ahead tests, owned by the scanner rules
 			}
 			what := shortType(call.Call.Args[0].Type())
 			if ac, isAC := call.Call.Args[0].(*ssa.Call); isAC && ac.Common().StaticCallee() != nil {
